@@ -3,7 +3,7 @@
 usage: confirm_mutant.py C07 1"""
 import sys, os, subprocess, json, shutil
 pid, k = sys.argv[1], sys.argv[2]
-wt = "/tmp/wt/%s" % pid
+wt = "%s/%s" % (os.environ.get("WT_ROOT", "/tmp/wt"), pid)
 env = dict(os.environ, PYTHONPATH=wt + "/src", PYTHONWARNINGS="ignore")
 def sh(cmd, **kw):
     return subprocess.run(cmd, shell=True, cwd=wt, env=env, capture_output=True, text=True, **kw)
@@ -24,7 +24,7 @@ suite_ok = "121 passed" in t.stdout
 ok = suite_ok and r0.returncode == 0 and r1.returncode != 0
 print(pid, k, "suite:", t.stdout.strip()[-40:], "| demo clean rc", r0.returncode, "| demo patched rc", r1.returncode, "=>", "CONFIRMED" if ok else "REJECTED")
 if ok:
-    d = "/verif/seeded/%s-%s" % (pid, k)
+    d = "/verif/seeded/%s-%s" % (pid, int(k) + int(os.environ.get("ID_OFFSET", "0")))
     os.makedirs(d, exist_ok=True)
     shutil.copy(os.path.join(wt, patch), os.path.join(d, "patch.diff"))
     shutil.copy(os.path.join(wt, demo), os.path.join(d, "demo.py"))
